@@ -334,8 +334,12 @@ class Session:
         self.nops += 1
         self.log.append(req)
         self.emit(req, ("ok " if ok else "reject ") + self.state())
+        nfail = len(self.ctx.failures)
         self.check_inv(what)
         self.ctx.count(f"op {what}{'' if ok else ' (raised)'}")
+        if len(self.ctx.failures) > nfail and self.shape != "excluded":
+            # the real tree is no longer well formed: later walks may not terminate; the sequence ends here
+            raise _Broken()
 
     def do_copy(self, n):
         how = self.rng.choice(["deepcopy", "pickle"])
@@ -473,7 +477,10 @@ def run_sequence(ctx, shape, seq_seed, batch, nops, nq):
             b = copy.deepcopy(fixture().core[0][0])
         ses.mirror(b)
         if rng.random() < 0.5:
-            prelude_mixed(ses, b)
+            try:
+                prelude_mixed(ses, b)
+            except _Broken:
+                return ses
         ops = ["add", "add", "add", "insert", "remove", "remove", "removeAll", "setChildren", "sort", "copy", "copychild",
                "group", "group", "moveto", "moveto"]
     elif shape == "assembly":
@@ -501,6 +508,12 @@ def run_sequence(ctx, shape, seq_seed, batch, nops, nq):
                 continue
             except _Abort:
                 ctx.count("sequence ended: geometry bookkeeping raised inside a multi-step block edit")
+                break
+            except _Broken:
+                ctx.count("sequence ended: oracle failure")
+                break
+            except RecursionError:
+                ctx.fail("walk-does-not-terminate", "the child lists form a finite tree", ses.case())
                 break
         ses.queries(nq)
     ctx.case((shape, seq_seed), nontrivial=ses.nops > 0,
@@ -535,6 +548,10 @@ def prelude_mixed(ses, b):
 
 class _Skip(Exception):
     pass
+
+
+class _Broken(Exception):
+    """the oracle found the real tree broken; the rest of the sequence is meaningless"""
 
 
 def _parents_for(ses, shape, kinds):
@@ -794,9 +811,22 @@ def run(ctx):
     batch = {"req": [], "impl": [], "cases": []}
     excl = {"req": [], "impl": [], "cases": []}
     excluded_points(ctx, excl)
-    fixture()
-    for shape, seq_seed, nops in plan(ctx):
-        run_sequence(ctx, shape, seq_seed, batch, nops, nq=ctx.pick(3, 3))
+    todo = plan(ctx)
+    # generic composites first: they need no reactor fixture
+    for shape, seq_seed, nops in todo:
+        if shape == "generic":
+            run_sequence(ctx, shape, seq_seed, batch, nops, nq=3)
+    try:
+        fixture()
+        have_fixture = True
+    except Exception as e:  # the real code cannot even build/copy the smallest reactor any more
+        have_fixture = False
+        ctx.disagree("the smallest test reactor can no longer be built (blueprints construction deep-copies assemblies)",
+                     {"shape": "generic", "seq_seed": 0}, "loads", repr(e)[:300])
+    if have_fixture:
+        for shape, seq_seed, nops in todo:
+            if shape != "generic":
+                run_sequence(ctx, shape, seq_seed, batch, nops, nq=3)
     model = lean_run("Tree", batch["req"])
     rows = [(c, m, i) for c, m, i in zip(batch["cases"], model, batch["impl"]) if i is not None]
     ctx.compare("Model/Tree.lean vs real composite objects", [r[0] for r in rows], [r[1] for r in rows], [r[2] for r in rows])
